@@ -87,7 +87,7 @@ def split_cases(draw):
     pts = sorted(set(draw(st.lists(st.integers(1, N - 1), min_size=1, max_size=k))))
     spec = simdrv.lattice_spec(
         n=n, moves=moves, workers=1, steps=N, seed=draw(SEEDS), wall=draw(st.sampled_from([-1, -3])),
-        n_jumps=draw(st.sampled_from([1, 2, 4])), maxlength=draw(st.sampled_from([30, 300])),
+        n_jumps=draw(st.sampled_from([1, 1, 2, 4])), maxlength=draw(st.sampled_from([12, 30, 300])),
         allowmaxlength=draw(st.booleans()), delete_old=draw(st.booleans()), delete_old_all=False,
     )
     if spec["delete_old"]:
